@@ -184,3 +184,47 @@ def context_exhaustive(k, rng=None, limit=None):
     if limit and len(out) > limit and rng is not None:
         out = [out[rng.below(len(out))] for _ in range(limit)]
     return out
+
+
+AMP_SUFFIX = [" ", "\n", ";", ")", "(", ",", "=", " x", "\"", "'", "%", "&a", "/*c*/", " ;", "\t ", "a", "1", "%mend;", "%end;"]
+AMP_PREFIX = [" ", "\n", ";", "\ufeff", "a ", "%macro m;", "x=", "\"", "%m(", "%let a="]
+
+
+def amplify(inputs, rng, limit=4000):
+    """inputs on which model and implementation disagree, extended by short suffixes/prefixes,
+    truncated and with line feeds injected: the search space for a failing input (DESIGN 8.3d)"""
+    out = []
+    seen = set(inputs)
+    base = sorted(set(inputs), key=len)[:400]
+    for x in base:
+        cands = [x + s for s in AMP_SUFFIX] + [p + x for p in AMP_PREFIX]
+        cands += [x[:i] for i in range(max(0, len(x) - 3), len(x))]
+        if len(x) <= 40:
+            cands += [x[:i] + "\n" + x[i:] for i in range(1, len(x))]
+            cands += [x[:i] + " " + x[i:] for i in range(1, len(x))]
+        for c in cands:
+            if c not in seen:
+                seen.add(c)
+                out.append(c)
+    if len(out) > limit:
+        out = [out[rng.below(len(out))] for _ in range(limit)]
+    return out
+
+
+def lf_stream(rng, n_pairs=300):
+    """a line feed (and CRLF) injected at every position of every fragment, and of sampled pairs"""
+    out = []
+    for f in FR:
+        if "\n" in f or len(f) > 40:
+            continue
+        out += lf_everywhere(f)
+    for _ in range(n_pairs):
+        t = rng.choice(FR) + rng.choice(FR)
+        if len(t) <= 30:
+            out += lf_everywhere(t)
+            i = rng.below(len(t) + 1)
+            out.append(t[:i] + "\r\n" + t[i:])
+    # quoted text inside comments and macro text, with the line feed inside the quotes
+    for t in ["%* it's a;quote';", "%*\"a;b\";", "* it's;", "%put 'a b';", "%let a='x y';", "%m('a b')", "%str('a b')", "/* 'a */"]:
+        out += lf_everywhere(t)
+    return out
